@@ -176,7 +176,7 @@ def r02_2(ctx):
                 augs = [d for d in ds if d.kind == "aug"]
                 okp = len(inits) == 1 and ast.unparse(inits[0].value) == "0" and not sc.enclosing_loops(inits[0].stmt) and len(augs) == 1 \
                     and [li.kind for li in loop_context(sc, n, augs[0].stmt)] == ["N", "M", "d"] and ast.unparse(augs[0].stmt.value) == "1" \
-                    and isinstance(augs[0].stmt.op, ast.Add) and sc.order[augs[0].stmt] > sc.order[c] and not sc.guards(augs[0].stmt)
+                    and isinstance(augs[0].stmt.op, ast.Add) and sc.order[augs[0].stmt] > sc.order[sc.stmt_of(s)] and not sc.guards(augs[0].stmt)
             else:
                 okp = False
     ctx.check(okp, "DirectCollocation model slot p", detail="parameters of another interval / signal sample of another collocation time",
